@@ -2777,6 +2777,30 @@ pub mod verif {
             id
         }
 
+        /// `create_queue` for a queue restored from the journal: explicit id, no event
+        /// (what `bootstrap::start_server` does for every restored queue).
+        pub fn add_restored_queue(
+            &mut self,
+            params: QueueParameters,
+            queue_id: QueueId,
+            handler: Box<dyn QueueHandler>,
+            worker_resources: Option<ResourceDescriptor>,
+            max_allocation_fails: u64,
+        ) -> QueueId {
+            let queue = AllocationQueue::new(
+                QueueInfo::new(params.clone()),
+                params.name.clone(),
+                handler,
+                RateLimiter::new(
+                    SUBMISSION_DELAYS.to_vec(),
+                    MAX_SUBMISSION_FAILS,
+                    max_allocation_fails,
+                ),
+                worker_resources,
+            );
+            self.state.add_queue(queue, Some(queue_id))
+        }
+
         pub async fn worker_connected(
             &mut self,
             id: WorkerId,
